@@ -13,6 +13,8 @@ if TYPE_CHECKING (/else, with a nested if) / try-except / try-except-else-finall
 """
 from __future__ import annotations
 
+import os
+
 import inspect
 import itertools
 import textwrap
@@ -47,7 +49,9 @@ MANIFEST = {
 DEF_VARIANTS = ["plain", "doc", "async", "cached", "unknown-deco", "async-cached"]
 CLASS_DEF_VARIANTS = ["plain", "doc", "staticmethod", "classmethod", "property", "async", "async-classmethod",
                       # a property completed by a setter that carries another decorator ABOVE `@<name>.setter`: still the same property
-                      "property-setter"]
+                      "property-setter",
+                      # two stacked decorators, a standard-library one and a built-in one, in both orders (labels add up, whatever the order)
+                      "cached+staticmethod", "staticmethod+cached", "property+abstract", "abstract+classmethod"]
 ASSIGN_VARIANTS = ["assign", "assign-doc", "annassign", "annonly"]
 IMPORT_FORMS = ["import n", "import n.x", "import x.y as n", "from m import n", "from m import x as n"]
 ALL_FORMS = ['__all__ = ["a"]', '__all__ = ["a", "b"]', '__all__ += ["b"]']
@@ -193,10 +197,16 @@ def render_stmt(r: R, s, ind, ctx, scope):
                 "async-cached": "@functools.cache", "async-classmethod": "@classmethod"}.get(v)
         labels = {"cached": {"cached"}, "staticmethod": {"staticmethod"}, "classmethod": {"classmethod"}, "property": {"property"}, "async": {"async"},
                   "async-cached": {"async", "cached"}, "async-classmethod": {"async", "classmethod"}}.get(v, set())
+        stacked = {"cached+staticmethod": (["@functools.cache", "@staticmethod"], {"cached", "staticmethod"}), "staticmethod+cached": (["@staticmethod", "@functools.cache"], {"cached", "staticmethod"}),
+                   "property+abstract": (["@property", "@abc.abstractmethod"], {"property", "abstractmethod"}), "abstract+classmethod": (["@abc.abstractmethod", "@classmethod"], {"abstractmethod", "classmethod"})}.get(v)
         first = len(r.lines) + 1
+        if stacked:
+            for d_ in stacked[0]:
+                r.emit(d_, ind)
+            labels = stacked[1]
         if deco:
             r.emit(deco, ind)
-        params = "self" if scope == "class" and v not in ("staticmethod",) else ""
+        params = "self" if scope == "class" and v not in ("staticmethod", "cached+staticmethod", "staticmethod+cached") else ""
         if v.endswith("classmethod"):
             params = "cls"
         head = ("async def " if v.startswith("async") else "def ") + f"{n}({params}):"
@@ -236,7 +246,7 @@ def render_stmt(r: R, s, ind, ctx, scope):
         else:
             r.emit(head + " ...", ind)
         last = len(r.lines)
-        kind = "attribute" if v == "property" else "function"
+        kind = "attribute" if v in ("property", "property+abstract") else "function"
         lineno = first  # (a property, like any other decorated definition, starts at its first decorator: slicing by the span returns the definition)
         ev.append({"op": "bind", "name": n, "kind": kind, "lineno": lineno, "endlineno": last, "cond": None, "guard": ctx["guard"], "labels": labels, "doc": doc,
                    "src_first": first, "is_def": True})
@@ -421,7 +431,7 @@ def render_seq(r: R, stmts, ind, ctx, scope):
     return ev
 
 
-HEAD = "import functools, typing, some, dataclasses\nimport typing as t\nfrom typing import TYPE_CHECKING, ClassVar\nfrom typing import TYPE_CHECKING as TC\n"
+HEAD = "import functools, typing, some, dataclasses, abc\nimport typing as t\nfrom typing import TYPE_CHECKING, ClassVar\nfrom typing import TYPE_CHECKING as TC\n"
 
 
 def build(case):
@@ -623,7 +633,7 @@ def _setup():
 def judge_scope(acc, case, src, lines, obj, events, path, scope_kind, ctxkey):
     """Compare griffe object `obj` (module or class) with the interpretation of `events`."""
     members, imports, exports, either = interpret(events)
-    header = {"functools", "typing", "some", "dataclasses", "TYPE_CHECKING", "ClassVar", "t", "TC"} if scope_kind == "module" and path == "m" else set()
+    header = {"functools", "typing", "some", "dataclasses", "abc", "TYPE_CHECKING", "ClassVar", "t", "TC"} if scope_kind == "module" and path == "m" else set()
     # z, y, Z are only bound by the "unsupported" statements (some of which Griffe does descend into): not judged
     got_names = [n for n in obj.members if n not in header and n not in ("z", "y", "Z")]
     exp_names = list(members)
@@ -687,7 +697,7 @@ def judge_scope(acc, case, src, lines, obj, events, path, scope_kind, ctxkey):
         if kind == "class":
             judge_scope(acc, case, src, lines, m, e.get("body", []), f"{path}.{n}", "class", ctxkey + "/nested")
     # imports map / exports
-    got_imports = {k: v for k, v in obj.imports.items() if k not in ("functools", "typing", "some", "dataclasses", "TYPE_CHECKING", "ClassVar", "t", "TC")} if scope_kind == "module" else dict(obj.imports)
+    got_imports = {k: v for k, v in obj.imports.items() if k not in ("functools", "typing", "some", "dataclasses", "abc", "TYPE_CHECKING", "ClassVar", "t", "TC")} if scope_kind == "module" else dict(obj.imports)
     if got_imports != imports:
         acc.violation(f"imports/{scope_kind}", f"{path}.imports {got_imports} vs {imports}", {"case": case, "source": src}, None, size=len(src))
     if scope_kind == "module":
@@ -749,9 +759,60 @@ def run_case(env, acc, case):
     acc.observe(sorted((n, "alias" if m.is_alias else m.kind.value, m.runtime) for n, m in scope.members.items()))
 
 
+RELOAD_VERSIONS = [
+    "def f():\n    return 1\n\ndef g():\n    return 2\n",
+    '"""Doc."""\n\n\ndef g():\n    return 22\n\nclass K:\n    def m(self):\n        return 3\n\ndef f():\n    return 11\n',
+    "import os\n\ndef f():\n    return 111\n",
+]
+
+
+def _run_reloads(env, acc):
+    """The same file loaded again by the SAME loader after it was edited (and by a second loader sharing the lines collection): spans and sources are those of the text that was analysed last."""
+    import ast
+
+    from mc.core import sandbox
+
+    g = env["griffe"]
+    for sharing in ("same-loader", "shared-lines-collection"):
+        for order in ((0, 1), (1, 0), (0, 1, 2), (1, 2, 0)):
+            with sandbox.scratch_dir("c01r") as d:
+                path = os.path.join(d, "relo.py")
+                lines = g.LinesCollection()
+                loader = None
+                for step, vi in enumerate(order):
+                    text = RELOAD_VERSIONS[vi]
+                    with open(path, "w") as f:
+                        f.write(text)
+                    if loader is None or (sharing == "shared-lines-collection" and step):
+                        loader = g.GriffeLoader(search_paths=[d], allow_inspection=False, lines_collection=lines)
+                    cd = {"family": "reload", "sharing": sharing, "versions": list(order[: step + 1])}
+                    try:
+                        mod = loader.load("relo")
+                    except Exception as e:  # noqa: BLE001
+                        acc.violation(f"reload/raise/{type(e).__name__}", f"load number {step + 1} raised {e!r}", cd, None, size=step)
+                        break
+                    want = {}
+                    for node in ast.walk(ast.parse(text)):
+                        if isinstance(node, (ast.FunctionDef, ast.ClassDef)):
+                            want[node.name] = "\n".join(text.splitlines()[node.lineno - 1 : node.end_lineno])
+                    bad = []
+                    for name, src in want.items():
+                        obj = mod.members.get(name) or mod.members["K"].members.get(name)
+                        got = None if obj is None else obj.source
+                        if got is None or [l.strip() for l in got.splitlines()] != [l.strip() for l in src.splitlines()]:
+                            bad.append((name, got, src))
+                    acc.case(cd, outcome="reload:" + ("ok" if not bad else "stale"), nontrivial=True)
+                    acc.observe([b[0] for b in bad])
+                    if bad:
+                        acc.violation(f"reload/source/{sharing}/load-{min(step + 1, 2)}", f"after loading the edited file again, {bad[0][0]}.source is {bad[0][1]!r}, the file says {bad[0][2]!r}", cd, None, size=step)
+                        break
+
+
 def run_shard(shard, tier):
     env = _setup()
     acc = Acc()
+    if shard == 0:
+        _run_reloads(env, acc)
     for idx, case in enumerate(all_cases(tier)):
         if idx % NSHARDS != shard:
             continue
@@ -771,5 +832,8 @@ def _detuple(x):
 def replay(case):
     env = _setup()
     acc = Acc()
+    if isinstance(case, dict) and case.get("family") == "reload":
+        _run_reloads(env, acc)
+        return [(k, v["summary"], v["detail"]) for k, v in acc.violations.items()]
     run_case(env, acc, _detuple(case["case"]))
     return [(k, v["summary"], v["detail"]) for k, v in acc.violations.items()]
